@@ -165,7 +165,9 @@ func main() {
 		cfgs := []cfg{{n: 1, b: 3, d: 2}, {n: 2, b: 3, d: 3}, {n: 3, b: 3, d: 2}, {n: 12, b: 3, d: 1}, {n: 2, b: 6, d: 1},
 			{n: 2, b: 4, d: 1, nohdr: true}, {n: 3, b: 5, d: 1, nohdr: true}, {n: 1, b: 3, d: 1, nohdr: true}, {n: 2, b: 3, d: 2, nofilter: true},
 			// channel capacities are 10/n: 2 for n=4,5; 1 for n=6..10; unbuffered from n=11
-			{n: 4, b: 5, d: 1}, {n: 6, b: 4, d: 1}, {n: 10, b: 4, d: 1}, {n: 11, b: 4, d: 1}, {n: 32, b: 3, d: 1}}
+			{n: 4, b: 5, d: 1}, {n: 6, b: 4, d: 1}, {n: 10, b: 4, d: 1}, {n: 11, b: 4, d: 1}, {n: 32, b: 3, d: 1},
+			// decoder counts below 1 mean one decoder
+			{n: 0, b: 3, d: 1}, {n: -3, b: 3, d: 1}}
 		budget := 7 * time.Minute
 		if !r.Quick() {
 			cfgs = []cfg{{n: 1, b: 3, d: 3}, {n: 2, b: 3, d: 3}, {n: 3, b: 3, d: 3}, {n: 2, b: 6, d: 2}, {n: 12, b: 3, d: 2}, {n: 32, b: 3, d: 1},
